@@ -74,6 +74,28 @@ pub fn one(ctx: &mut Ctx, v: f64, acc: f32, max_den: u8, max_whole: u32) {
     }
 }
 
+/// `try_approx` twice on one number: the answer of the second call must be that of a fresh `new_approx` on the
+/// current value (no dependence on how the number got its present form)
+pub fn twice(ctx: &mut Ctx, v: f64, p1: (f32, u8, u32), p2: (f32, u8, u32)) {
+    let input = format!("Regular({v:?}).try_approx{p1:?} then .try_approx{p2:?}");
+    let r = guarded(|| {
+        let mut n = Number::Regular(v);
+        let b1 = n.try_approx(p1.0, p1.1, p1.2);
+        let n1 = n;
+        let b2 = n.try_approx(p2.0, p2.1, p2.2);
+        let fresh = Number::new_approx(n1.value(), p2.0, p2.1, p2.2);
+        (n1, b1, n, b2, fresh)
+    });
+    let (n1, b1, n2, b2, fresh) = match r { Ok(x) => x, Err(p) => { ctx.oracle_fail(input, format!("panic {p}"), panic_signature(&p)); return; } };
+    let op = format!("tryapprox2 {} {} {} {} {} {} {}", bits(v), bits(p1.0 as f64), p1.1, p1.2, bits(p2.0 as f64), p2.1, p2.2);
+    ctx.case(op, format!("{} {} {} {}", render(&Some(n1)), b1, render(&Some(n2)), b2), b1 || b2, input.clone());
+    ctx.count(&format!("twice:{}{}", if b1 { "T" } else { "F" }, if b2 { "T" } else { "F" }));
+    let want = match fresh { Some(f) => (f, true), None => (n1, false) };
+    if render(&Some(want.0)) != render(&Some(n2)) || want.1 != b2 {
+        ctx.oracle_fail(input, format!("second try_approx gave ({}, {b2}), a fresh new_approx on the same value gives ({}, {})", render(&Some(n2)), render(&Some(want.0)), want.1), "c12:history".into());
+    }
+}
+
 pub fn run(ctx: &mut Ctx) {
     ctx.rule = "new_approx calls over a dense k/9600 grid, every table fraction ±1/±8 ulp and ±1e-4..1e-2, a log grid, random values, \
 non-finite and non-positive values; max_den sampled from 1..=64, accuracies {0,.01,.05,.5,1}, whole limits {0,1,5,u32::MAX}; \
@@ -117,6 +139,13 @@ non-trivial = the call returned Some(_); distinct = distinct request lines".into
                 one(ctx, v, 0.05, 16, u32::MAX);
             }
         }
+    }
+    // histories: two try_approx calls with different parameters on one number
+    let n_hist = if ctx.thorough { 400_000 } else { 6_000 };
+    for i in 0..n_hist {
+        let v = match i % 3 { 0 => rng.unit_f64() * 6.0, 1 => (rng.below(50) as f64) + *rng.pick(&fracs) + (rng.unit_f64() - 0.5) * 10f64.powi(-(1 + rng.below(6) as i32)), _ => 10f64.powf(rng.unit_f64() * 12.0 - 3.0) };
+        let p1 = pick_params(&mut rng); let p2 = pick_params(&mut rng);
+        twice(ctx, v, p1, p2);
     }
     // log grid and random
     let n_rand = if ctx.thorough { 3_000_000 } else { 40_000 };
